@@ -107,6 +107,41 @@ def stores(fn, F, local_name, cut_loops=True, through_deref=False):
             out.append((cn.c(norm(P.local(pr[0]['idx'], b, i))), cn.c(norm(P.rvalue(st['rv'], b, i, 0)))))
         elif len(pr) == 1 and isinstance(pr[0], dict) and 'cidx' in pr[0]:
             out.append((str(pr[0]['cidx']), cn.c(norm(P.rvalue(st['rv'], b, i, 0)))))
+    # `*cell = v` with cell the element of local.iter_mut() (.enumerate() / .zip(..) / .rev()): the store local[i] = v
+    if not through_deref:
+        import re as _re
+        for b, i, st in fn.stmts():
+            if st['k'] != 'assign' or st['lhs']['p'] != ['deref']:
+                continue
+            l = st['lhs']['l']
+            if l <= fn.arg_count or not (fn.local_ty(l) or '').startswith('&mut '):
+                continue
+            raw = P.local(l, b, i)
+            tgt = cn.c(norm(raw))
+            # which local does the iterator borrow?
+            owner = None
+            from .builder import root_local as _root
+            for x in raw.walk():
+                if x.k == 'call' and last(x.name or '') in ('iter_mut', 'chunks_exact_mut', 'chunks_mut') and x.site and x.site[1] == -1:
+                    tb_ = fn.blocks[x.site[0]]['term']
+                    if tb_['args'] and tb_['args'][0]['k'] in ('copy', 'move'):
+                        rl_ = _root(P, tb_['args'][0], x.site[0], len(fn.blocks[x.site[0]]['stmts']))
+                        owner = fn.locals[rl_].get('name') if rl_ is not None else None
+                        break
+            if owner != local_name or not tgt.endswith(']'):
+                continue
+            # the index is the text inside the last top-level brackets
+            d_, k_ = 0, None
+            for pos in range(len(tgt) - 1, -1, -1):
+                if tgt[pos] == ']':
+                    d_ += 1
+                elif tgt[pos] == '[':
+                    d_ -= 1
+                    if d_ == 0:
+                        k_ = pos
+                        break
+            if k_ is not None:
+                out.append((tgt[k_ + 1:-1], cn.c(norm(P.rvalue(st['rv'], b, i, 0)))))
     # local[a..a+n].copy_from_slice(src) with a source of known length n is n element stores
     if not through_deref:
         from .builder import be_call_type, be_byte, root_local
